@@ -3,7 +3,7 @@
     [run_case : bytes -> bytes] maps one ASCII case line to one ASCII result line.  The Rust
     harness (/verif/harness) implements the same protocol over the real crate. *)
 Require Import CF.Model.Base CF.Model.Omics CF.Model.Pair CF.Model.Text CF.Model.Records
-  CF.Model.Reader CF.Model.Sections CF.Model.StepThrough CF.Model.Lapper CF.Model.Machine.
+  CF.Model.Reader CF.Model.Sections CF.Model.StepThrough CF.Model.Lapper CF.Model.Machine CF.Model.Ops.
 
 Definition str (l : list N) : bytes := l.
 (* small ASCII helpers *)
@@ -179,8 +179,7 @@ Definition show_lift (r : outcome (option (list pair))) : bytes :=
 
 Definition CAP : nat := 60.
 
-(* reader operation histories (C17) *)
-Inductive op := OpRaw | OpParsed | OpLines | OpSec | OpDrop.
+(* reader operation histories (C17): printed from the semantic trace of Model/Ops.v *)
 Definition parse_op (b : N) : option op :=
   if b =? 114 then Some OpRaw else if b =? 112 then Some OpParsed else if b =? 108 then Some OpLines
   else if b =? 115 then Some OpSec else if b =? 110 then Some OpDrop else None.
@@ -200,28 +199,22 @@ Definition show_parsed (r : rawres) : bytes :=
   | REof => w_eof
   end.
 Definition sum_consumed (l : list rawres) : N := fold_right (fun r a => consumed_of r + a) 0 l.
-(* ops over the remaining reads; [pos] = bytes consumed so far; [it] = live sections iterator *)
-Fixpoint run_ops (ops : list op) (rs : list rawres) (pos : N) (it : option siter) : list bytes :=
-  match ops with
+(* each observation followed by '@' and the cursor position (bytes consumed so far) *)
+Fixpoint show_trace (tr : list (obs * list rawres)) (pos : N) : list bytes :=
+  match tr with
   | [] => []
-  | o :: os =>
-    match o with
-    | OpDrop => [110] :: run_ops os rs pos None
-    | OpRaw | OpParsed | OpLines =>
-      let '(r, rest) := match rs with [] => (REof, []) | r :: rest => (r, rest) end in
-      let pos' := pos + consumed_of r in
-      let shown := match o with OpRaw => show_raw r | _ => show_parsed r end in
-      (shown ++ [64] ++ show_N pos') :: run_ops os rest pos' None
-    | OpSec =>
-      let it0 := match it with Some i => i | None => sections_new end in
-      match sections_next it0 rs with
-      | Panic _ => [w_panic]
-      | Val (x, it', rest) =>
-        let pos' := pos + (sum_consumed rs - sum_consumed rest) in
-        ((match x with None => w_end | Some y => show_sitem y end) ++ [64] ++ show_N pos') :: run_ops os rest pos' (Some it')
-      end
+  | (ob, used) :: r =>
+    let pos' := pos + sum_consumed used in
+    match ob with
+    | ObsDrop => [110] :: show_trace r pos'
+    | ObsPanic => [w_panic]
+    | ObsRaw x => (show_raw x ++ [64] ++ show_N pos') :: show_trace r pos'
+    | ObsParsed x => (show_parsed x ++ [64] ++ show_N pos') :: show_trace r pos'
+    | ObsSec x => ((match x with None => w_end | Some y => show_sitem y end) ++ [64] ++ show_N pos') :: show_trace r pos'
     end
   end.
+Definition run_ops_shown (ops : list op) (rs : list rawres) : list bytes :=
+  show_trace (fst (run_ops ops {| oreads := rs; oiter := None |})) 0.
 
 Definition run_tokens (ts : list bytes) : bytes :=
   match ts with
@@ -301,7 +294,7 @@ Definition run_tokens (ts : list bytes) : bytes :=
       end
     else if bytes_eqb cmd [111;112;115] (* ops <src> <ops> *) then
       match parse_src a, parse_ops b with
-      | Some s, Some os => joinw SP (run_ops os (raw_reads s) 0 None)
+      | Some s, Some os => joinw SP (run_ops_shown os (raw_reads s))
       | _, _ => w_badcase
       end
     else w_badcase
